@@ -212,6 +212,34 @@ def Sys.step (s : Sys) : Step → Sys
 
 def Sys.run (s : Sys) (steps : List Step) : Sys := steps.foldl Sys.step s
 
+/-- the events the loop handles that are none of the consumers' business.  In the code the
+    only statement of their handlers that touches `Torrent.requested` is `DelIdle()`
+    (`TorSetConf` always; `periodicRequest` — reached from `TorSetConf`, `TorPeerUnchoke`, the
+    request ticker and `TorRequest` through `maybeRequest` — whenever a client priority is
+    pending); `prunes` says whether it runs. -/
+inductive Bystander where
+  | setConf (dhtMode : Nat) (useTrackers useWebseeds : Bool)
+  | peerHave (i : Nat) (have_ : Bool)
+  | peerBitmap (have_ : Bool)
+  | peerUnchoke (prunes : Bool)
+  | peerInterested
+  | peerGoaway
+  | addPeer
+  | announce (ipv6 : Bool)
+  | getter
+  | dropPeer
+  | tick (prunes : Bool)
+  deriving Repr, DecidableEq
+
+def Bystander.prunes : Bystander → Bool
+  | .setConf _ _ _ => true
+  | .peerUnchoke p => p
+  | .tick p => p
+  | _ => false
+
+def Sys.bystander (s : Sys) (b : Bystander) : Sys :=
+  if b.prunes then s.step .delIdle else s
+
 /-! ### canonical printing (driver) -/
 
 def insertSorted (x : Nat × Entry) : PMap → PMap
